@@ -27,6 +27,11 @@ def families(thorough):
             for stop in ('eof', 'X'):
                 s.append(Case(t, stop=stop))
                 s.append(Case(('copyin',) + t, stop=stop))
+    # replies around the 8 KiB relay threshold: three 3000-byte rows; a first row of 9000 bytes; inside a multi-statement message
+    for t in (['bigsel', 'select'], ['hugesel', 'select'], ['begin', 'hugesel', 'commit', 'select'], ['multibig', 'select'], ['hugesel', 'hugesel']):
+        for stop in ('eof', 'X'):
+            s.append(Case(t, stop=stop))
+    s.append(Case(['hugesel', 'select'], stop='X', mode='session'))
     F['simple'] = s
     s = []
     for n in (1, 2):
@@ -51,6 +56,8 @@ def families(thorough):
                 for cache in (0, 4):
                     s.append(Case(b1 + ['S'] + b2 + ['S'], stop='X', cache=cache))
                     s.append(Case(['begin'] + b1 + ['S'] + b2, stop='eof', cache=cache))
+    for t in (['Pbig', 'B', 'E', 'S', 'select'], ['Phuge', 'B', 'E', 'S', 'select'], ['begin', 'Phuge', 'B', 'E', 'S', 'commit'], ['P', 'B', 'E', 'Phuge', 'B', 'E', 'S', 'select']):
+        s.append(Case(t, stop='X'))
     # transaction control and session statements sent through the extended protocol
     xb = {'begin': ['Pbegin', 'B', 'E', 'S'], 'commit': ['Pcommit', 'B', 'E', 'S'], 'error': ['Perror', 'B', 'E', 'S'], 'set': ['Pset', 'B', 'E', 'S'], 'select': ['P', 'B', 'E', 'S']}
     for t in (['begin', 'select', 'commit'], ['begin', 'error', 'select', 'commit'], ['begin', 'select'], ['set', 'select'], ['begin', 'set', 'commit'], ['begin', 'commit', 'select'], ['error', 'select']):
@@ -208,6 +215,9 @@ def families(thorough):
         for b in (['select'], ['P', 'B', 'E', 'S'], ['begin', 'select', 'commit']):
             s.append(Case(a, stop='eof', second=b))
             s.append(Case(a, stop='eof', second=b, mode='session'))
+    for a in (['hugesel'], ['bigsel'], ['Phuge', 'B', 'E', 'S'], ['copyin_big', 'd', 'c']):
+        for stop in ('X', 'eof'):
+            s.append(Case(a, stop=stop, second=['select']))
     F['two-clients'] = s
     # -- COPY IN with chunk sizes on both sides of the 8196-byte forwarding threshold
     s = []
@@ -220,6 +230,10 @@ def families(thorough):
                 s.append(Case(['copyin'] + list(t) + [end, 'select'], stop='X'))
     s.append(Case(['copyin', 'dbig:9000', 'd'], stop='eof'))
     s.append(Case(['begin', 'copyin', 'd', 'dbig:9000', 'd', 'c', 'commit'], stop='X'))
+    # a COPY FROM STDIN that is one statement of a multi-statement message: the rest of the message is answered after CopyDone
+    for t in (['copyin_sel', 'd', 'c', 'select'], ['copyin_big', 'd', 'c', 'select'], ['begin', 'copyin_big', 'd', 'c', 'commit', 'select'], ['copyin_big', 'd', 'f', 'select']):
+        for stop in ('X', 'eof'):
+            s.append(Case(t, stop=stop))
     F['copy'] = s
     # -- the pooler's own commands: never forwarded, answered, and routing what follows (two shards; primary + replica)
     s = []
